@@ -104,6 +104,7 @@ pub fn rd(bytes: Vec<u8>) -> Box<dyn std::io::Read> {
     let k = RD_COUNTER.fetch_add(1, std::sync::atomic::Ordering::Relaxed);
     match k % 4 {
         0 | 2 => Box::new(Cursor::new(bytes)),
+        1 if k % 8 == 5 => Box::new(crate::misc_exec::Interrupting { inner: crate::misc_exec::Chunked { data: bytes, pos: 0, chunk: 100 }, calls: 0 }),
         1 => Box::new(crate::misc_exec::Chunked { data: bytes, pos: 0, chunk: 7 }),
         _ => Box::new(crate::misc_exec::Chunked { data: bytes, pos: 0, chunk: if k % 8 == 3 { 1 } else { 64 } }),
     }
